@@ -790,7 +790,7 @@ func c08LayoutPairs(c *fw.Ctx, pool *proc.Pool) {
 		{"eol-crlf", func(l *model.Layout) { l.EOL = "\r\n" }}, {"eol-cr", func(l *model.Layout) { l.EOL = "\r" }},
 		{"indent-4", func(l *model.Layout) { l.Unit = "    " }}, {"indent-tab", func(l *model.Layout) { l.Unit = "\t" }}, {"indent-none", func(l *model.Layout) { l.FlatIndent = true; l.ExplicitP = 100 }},
 		{"comments", func(l *model.Layout) { l.Comments = true }}, {"trailing-blanks", func(l *model.Layout) { l.Trailing = true }},
-		{"quote-all", func(l *model.Layout) { l.QuoteAll = true }}, {"block-annotations", func(l *model.Layout) { l.BlockAnn = true }},
+		{"quote-all", func(l *model.Layout) { l.QuoteAll = true }}, {"block-annotations", func(l *model.Layout) { l.BlockAnn = true }}, {"block-annotations-tight", func(l *model.Layout) { l.BlockAnn, l.TightAnn = true, true }}, {"line-annotations-tight", func(l *model.Layout) { l.TightAnn = true }},
 		{"explicit-contexts", func(l *model.Layout) { l.ExplicitP = 100 }}, {"explicit-some", func(l *model.Layout) { l.ExplicitP = 50 }},
 		{"explicit-even-siblings", func(l *model.Layout) { l.ExplicitAlt = 1 }}, {"explicit-odd-siblings", func(l *model.Layout) { l.ExplicitAlt = 2 }}, {"token-gaps", func(l *model.Layout) { l.Gaps = true }},
 	}
